@@ -625,7 +625,19 @@ fn json_number_text(max_digits: usize) -> BoxedStrategy<String> {
                 if e >= 0 && esign == 1 {
                     s.push('+');
                 }
-                s.push_str(&e.to_string());
+                // JSON allows any number of leading zeros in the exponent digits ("1.5e0005", also after a sign): one text in five
+                // is padded, by lengths around the 20 digits of a u64/i64, the 39 digits of an i128 and far beyond
+                const PADS: [usize; 16] = [1, 2, 3, 17, 18, 19, 20, 21, 36, 37, 38, 39, 40, 41, 64, 300];
+                let digits = e.unsigned_abs().to_string();
+                if e < 0 {
+                    s.push('-');
+                }
+                if (seed >> 8) % 5 == 0 {
+                    for _ in 0..PADS[((seed >> 16) % 16) as usize] {
+                        s.push('0');
+                    }
+                }
+                s.push_str(&digits);
             }
             s
         })
@@ -738,6 +750,6 @@ pub fn run(ctx: &Ctx) {
     let n = t.pick(500_000u64, 3_000_000);
     ctx.generated("decimals", "val", n, "1..400 digits; scales +-40..60, +-2000, the scale limit +-3 on both sides, anywhere in +-150000", move || val_strategy(max_len), check_val);
     let max_digits = t.pick(400usize, 2000);
-    ctx.generated("json-texts", "text", n, "JSON numbers from the grammar (1..max digits, fractions with leading zeros, exponents small / at the scale limit / at the i64 ends) and single-token corruptions of them; read as number, as numeric string and through json_num / json_num_option", move || text_strategy(max_digits), check_text);
+    ctx.generated("json-texts", "text", n, "JSON numbers from the grammar (1..max digits, fractions with leading zeros, exponents small / at the scale limit / at the i64 ends, one in five zero-padded by 1..3, 17..21, 36..41, 64 or 300 zeros) and single-token corruptions of them; read as number, as numeric string and through json_num / json_num_option", move || text_strategy(max_digits), check_text);
     ctx.generated("primitive-tokens", "tok", n, "serde::de::value deserializers for u8..u128, i8..i128 (MIN, MAX, 0, 1, random), f32/f64 bit patterns incl. NaN, infinities, subnormals, and a quarter of them with everyday magnitudes (2^-70..2^70: up to 52 + 70 binary places)", tok_strategy, check_tok);
 }
